@@ -35,6 +35,7 @@ void expect_exact(eng::Ctx& ctx, const std::string& sig, const ref::TA& got, con
 void harness::run_case(const eng::Raw& raw, eng::Ctx& ctx)
 {
 	gen::Limits lim;
+	lim.overload = true;
 	lim.maxStates = ctx.tier() ? 8 : 6;
 	lim.arity3 = true;
 	gen::TACase c = gen::decode_ta(raw, lim, false);
@@ -80,8 +81,18 @@ void harness::run_case(const eng::Raw& raw, eng::Ctx& ctx)
 	MapF f;
 	for (auto& kv : h) f.m[static_cast<StateType>(kv.first)] = static_cast<StateType>(kv.second);
 
+	// half of the inputs live over their OWN alphabet (symbol numbers differ from the process-wide default alphabet):
+	// the value-returning entry points hand the alphabet on, so their results are read through their own alphabet;
+	// the dst overloads copy symbol numbers into an automaton of the caller, which is read through the input's alphabet
+	const bool ownAlphabet = (c.header[7] / 4) % 2;
 	ExplicitTreeAut a;
-	{ eng::LibSection ls(ctx, "build"); a = lib::build(c.A, c.order, c.num); }
+	{
+		eng::LibSection ls(ctx, "build");
+		if (ownAlphabet) { lib::Alphabet al = lib::private_alphabet(c.syms, c.header[7]); a.SetAlphabet(al); }
+		lib::fill(a, c.A, c.order, c.num);
+	}
+	if (ownAlphabet) ctx.tag("input-over-its-own-alphabet");
+	const lib::Alphabet inAlpha = a.GetAlphabet();
 
 	// (a) functor, returning
 	{
@@ -97,7 +108,7 @@ void harness::run_case(const eng::Raw& raw, eng::Ctx& ctx)
 	{
 		ExplicitTreeAut dst;
 		{ eng::LibSection ls(ctx, "ReindexStates(dst-empty)"); a.ReindexStates(dst, f); }
-		expect_exact(ctx, "reindex-dst-empty", lib::read(dst), want, "ReindexStates into an empty automaton");
+		expect_exact(ctx, "reindex-dst-empty", lib::read(dst, inAlpha), want, "ReindexStates into an empty automaton");
 
 		// non-empty destination: a sub-automaton of the image plus foreign rules
 		ref::TA D;
@@ -110,7 +121,9 @@ void harness::run_case(const eng::Raw& raw, eng::Ctx& ctx)
 		ExplicitTreeAut dst2;
 		{
 			eng::LibSection ls(ctx, "ReindexStates(dst-nonempty)");
-			dst2 = lib::build(D);
+			lib::Alphabet al = inAlpha;
+			dst2.SetAlphabet(al);       // a destination of the caller lives over the same alphabet as the source
+			lib::fill(dst2, D, std::vector<ref::Rule>(D.rules.begin(), D.rules.end()), lib::identity_numbering(D.max_state() + 1));
 			a.ReindexStates(dst2, f, (c.header[6] >> 16) % 2 == 0);
 		}
 		ref::TA w = D;
@@ -178,7 +191,7 @@ void harness::run_case(const eng::Raw& raw, eng::Ctx& ctx)
 		ref::TA w;
 		w.finals = V.finals;
 		for (auto& rule : V.rules) w.rules.insert(ref::Rule{sm[rule.sym], rule.ch, rule.par});
-		expect_exact(ctx, "translate-symbols", lib::read(r, alpha), w, "TranslateSymbols");
+		expect_exact(ctx, "translate-symbols", lib::read(r), w, "TranslateSymbols");
 	}
 	tc::expect_unchanged(ctx, "rename", a, V);
 }
